@@ -88,7 +88,10 @@ type vfStore struct {
 	ShortAt func(path string, off int64, n int) int
 	// ReportSizeZero: files created from now on report size 0 in their attributes (a backend without sizes, procfs-like)
 	ReportSizeZero bool
-	Now            int64
+	// EagerEOF: a read that reaches the end of the file reports io.EOF together with its bytes, also when it
+	// filled the buffer (io.ReaderAt: "may return either err == EOF or err == nil" in that case)
+	EagerEOF bool
+	Now      int64
 }
 
 func vfNewStore() *vfStore {
@@ -227,7 +230,7 @@ func (o *vfObj) ReadAt(p []byte, off int64) (int, error) {
 		}
 	}
 	n := copy(p, o.file.data[off:])
-	if n < len(p) {
+	if n < len(p) || (o.st.EagerEOF && off+int64(n) == int64(len(o.file.data))) {
 		return n, io.EOF
 	}
 	return n, nil
